@@ -300,7 +300,8 @@ func (fx *FnCtx) finish(st *State) {
 				continue
 			}
 			e2 := *env
-			e2.bound = rec.named
+			e2.callee = rec.named
+			e2.callHeap = rec.heap
 			conj = append(conj, fx.specBool(&e2, ac.Expr))
 		}
 		if len(conj) > 0 {
@@ -314,7 +315,8 @@ func (fx *FnCtx) finish(st *State) {
 				continue
 			}
 			e2 := *env
-			e2.bound = rec.named
+			e2.callee = rec.named
+			e2.callHeap = rec.heap
 			disj = append(disj, fx.specBool(&e2, mc.Expr))
 		}
 		goal := "false"
